@@ -24,7 +24,7 @@ CONSTANTS
   NPre, NPost, NPc,             \* number of pre_recycle / post_recycle / post_create hooks
   AsyncPre, AsyncPost, AsyncPc, \* indices of the hooks registered with Hook::async_fn
   GetModes,       \* subset of {"nb","bl","timed"}: wait = Some(0) / None / Some(finite)
-  CreateTO, RecycleTO,          \* "none" | "finite" : create / recycle timeout in effect
+  CreateTO, RecycleTO,          \* "none" | "zero" | "finite" : create / recycle timeout in effect
   HasRuntime,     \* a Runtime was given to the builder
   ResizeTargets,  \* arguments resize() may be called with ({} = no resize)
   AllowClose, AllowRetain, AllowTake, AllowDropPool,
@@ -266,10 +266,15 @@ Outcomes(t) ==
   {"ok"} \cup (IF AllowFail THEN {"err"} ELSE {}) \cup (IF AllowPanic THEN {"panic"} ELSE {})
          \cup (IF AllowSuspend /\ IsAsync(pc[t], cnt[t]) THEN {"susp"} ELSE {})
 
+ZeroTO(t) == HasRuntime /\ ((pc[t] = "create" /\ CreateTO = "zero") \/ (pc[t] = "recycle" /\ RecycleTO = "zero"))
+
 \* the call is entered (first poll) and decides at once, or returns Pending
 Call(t, out) ==
   /\ pc[t] \in CallPcs /\ ~susp[t] /\ out \in Outcomes(t)
-  /\ CASE out = "susp" -> susp' = [susp EXCEPT ![t] = TRUE] /\ UNCHANGED <<pc, obj, cnt, res, chain, ov, nextObj, alive>>
+  /\ CASE out = "susp" /\ ZeroTO(t) ->
+            \* timeout(0, fut): the future is polled once, then the deadline has already passed
+            Fail(t, IF pc[t] = "create" THEN "timeout_create" ELSE "timeout_recycle") /\ UNCHANGED <<susp, obj, nextObj, alive>>
+       [] out = "susp" /\ ~ZeroTO(t) -> susp' = [susp EXCEPT ![t] = TRUE] /\ UNCHANGED <<pc, obj, cnt, res, chain, ov, nextObj, alive>>
        [] out = "ok" /\ pc[t] = "create" -> CreateOk(t) /\ UNCHANGED <<susp, cnt, res, ov>>
        [] out = "ok" /\ pc[t] # "create" -> Advance(t) /\ UNCHANGED <<susp, obj, nextObj, alive>>
        [] OTHER -> Fail(t, out) /\ UNCHANGED <<susp, obj, nextObj, alive>>
